@@ -1,5 +1,6 @@
 import InfluxQL.Lemmas.Prec
 import InfluxQL.Model.ParserCore
+import InfluxQL.Lemmas.ExprRoundTrip
 /-!
 # C03 — binary operators group by precedence and associate to the left
 
@@ -135,5 +136,96 @@ theorem negated_operand_counterexample :
 example : parseChain 'a' [(.ADD, 'b'), (.MUL, 'c'), (.SUB, 'd')] =
     .node .SUB (.node .ADD (.atom 'a') (.node .MUL (.atom 'b') (.atom 'c'))) (.atom 'd') := by rfl
 example : ∀ p ∈ [(Token.ADD, 'b'), (Token.MUL, 'c')], 1 ≤ p.1.precedence := by decide
+
+
+/-! ## Printing and parsing again, on the parser and the printer themselves -/
+
+/-- The decidable class of expressions the round trip is proved for (`RT.rtOK`, see there). -/
+def Printable (e : Expr) : Prop := RT.rtOK false e = true
+
+instance (e : Expr) : Decidable (Printable e) := inferInstanceAs (Decidable (RT.rtOK false e = true))
+
+/-- **C03 (re-parsing, on the real printer and parser).** For every printable expression `e` —
+any depth, any names and literal values — `ParseExpr(e.String())` returns exactly `e`: the text
+`Expr.print` writes carries the grouping, whatever parameters are bound. -/
+theorem expr_print_parse (e : Expr) (h : Printable e) (params : List (Str × BoundValue))
+    (lower : List (Char × Char)) : parseExprText e.print params lower = .ok e :=
+  RT.parseExprText_print e h params lower (fun h => by cases h)
+
+/-- The same from any parser state (the state-level form): `ParseExpr` started before
+`e.String()` followed by `)`, `,` or the end of the input returns `e`, stands before that
+separator with its token pushed back — or the fuel given was too small. -/
+theorem expr_print_parse_state (fuel : Nat) (s : PState) (e : Expr) (k : List Char) (h : Printable e)
+    (hk : RT.SepC k) (hs : RT.AtW s (e.print ++ k)) :
+    wp (parseExpr fuel) s (fun e' s' => e' = e ∧ RT.At s' k ∧ RT.Same s s') (· = .fuel) :=
+  (RT.rt_specs false fuel).1 s e k (fun h => by cases h) h hk hs
+
+/-- The extended class: additionally variable references with a type cast (`::float`, `::integer`,
+`::unsigned`, `::string`, `::boolean`, `::field`, `::tag`) and calls `f(arg, …)` whose name is a
+lower-case non-keyword identifier (what is printed without quotes and not changed by
+`strings.ToLower`), with arguments of the class or regex literals (`RT.rtOK true`). -/
+def PrintableX (e : Expr) : Prop := RT.rtOK true e = true
+
+instance (e : Expr) : Decidable (PrintableX e) := inferInstanceAs (Decidable (RT.rtOK true e = true))
+
+/-- **C03 (re-parsing, with calls).** The same for the extended class. Partial in one respect: the
+lower-casing table shipped with the input (the model's stand-in for `unicode.ToLower`) must have
+entries for non-ASCII runes only — which is what the harness sends; the parser lower-cases every
+call name and type name through it. Still excluded from the class (see notes/C03.md): call names
+that need quotes or contain capitals (known finding / normalisation), `distinct`, wildcards, number
+and duration literals, and the ungrouped `-1 * x` operand of the known finding. -/
+theorem expr_print_parse_partial (e : Expr) (h : PrintableX e) (params : List (Str × BoundValue))
+    (lower : List (Char × Char)) (hl : ∀ p ∈ lower, 128 ≤ p.1.toNat) :
+    parseExprText e.print params lower = .ok e :=
+  RT.parseExprText_print e h params lower (fun _ => hl)
+
+-- non-vacuity: `a + b * (c - 1) AND d = 'x'`
+example : Printable
+    (.binary .AND
+      (.binary .ADD (.varRef ['a'] .Unknown)
+        (.binary .MUL (.varRef ['b'] .Unknown)
+          (.paren (.binary .SUB (.varRef ['c'] .Unknown) (.integer 1)))))
+      (.binary .EQ (.varRef ['d'] .Unknown) (.string ['x']))) := by decide
+
+example : Expr.print
+    (.binary .AND
+      (.binary .ADD (.varRef ['a'] .Unknown)
+        (.binary .MUL (.varRef ['b'] .Unknown)
+          (.paren (.binary .SUB (.varRef ['c'] .Unknown) (.integer 1)))))
+      (.binary .EQ (.varRef ['d'] .Unknown) (.string ['x']))) =
+    "a + b * (c - 1) AND d = 'x'".toList := by decide
+
+-- a quoted name, a keyword as a name, an escaped string
+example : Printable (.binary .OR (.varRef "my field".toList .Unknown)
+    (.binary .LT (.varRef "select".toList .Unknown) (.string "it's".toList))) := by decide
+
+-- all sign cases of integers, an unsigned literal, booleans, a regex operand
+example : Printable (.binary .OR
+    (.binary .AND (.binary .GT (.varRef ['a'] .Unknown) (.integer (-9223372036854775808)))
+      (.binary .EQREGEX (.varRef "host".toList .Unknown) (.regex "^a/b\\.c$".toList)))
+    (.binary .NEQ (.paren (.binary .ADD (.unsigned 18446744073709551615) (.integer (-7)))) (.boolean true))) := by
+  decide
+
+-- nested calls, a regex argument, an empty argument list, an expression argument
+example : PrintableX (.binary .GT
+    (.call "percentile".toList [.call "mean".toList [.varRef "value".toList .Unknown], .integer 95])
+    (.binary .ADD (.call "count".toList [.regex "^cpu.*".toList]) (.call "now".toList []))) := by decide
+
+example : Expr.print (.binary .GT
+    (.call "percentile".toList [.call "mean".toList [.varRef "value".toList .Unknown], .integer 95])
+    (.binary .ADD (.call "count".toList [.regex "^cpu.*".toList]) (.call "now".toList []))) =
+    "percentile(mean(value), 95) > count(/^cpu.*/) + now()".toList := by decide
+
+example : ∀ p ∈ [('Ä', 'ä')], 128 ≤ p.1.toNat := by decide
+
+-- typed references
+example : PrintableX (.binary .LT (.call "max".toList [.varRef "v".toList .Float, .varRef "t 1".toList .Tag])
+    (.varRef "n".toList .AnyField)) := by decide
+example : Expr.print (.binary .LT (.call "max".toList [.varRef "v".toList .Float, .varRef "t 1".toList .Tag])
+    (.varRef "n".toList .AnyField)) = "max(v::float, \"t 1\"::tag) < n::field".toList := by decide
+
+-- the excluded region: the tree of the known finding is not printable
+example : ¬ Printable (.binary .DIV (.varRef ['b'] .Unknown) (.binary .MUL (.integer (-1)) (.varRef ['a'] .Unknown))) := by
+  decide
 
 end InfluxQL.C03
